@@ -64,7 +64,11 @@ static void do_call(int kind, int i, int cfg, eav_t *e, out_t *o)
         case 4: r = is_822_email(pool[i], plen[i], cfg); break;
         case 5: r = is_5321_email(pool[i], plen[i], cfg); break;
         case 6: r = is_5322_email(pool[i], plen[i], cfg); break;
+#ifndef HAVE_IDNKIT
         case 7: r = is_6531_email(pool[i], plen[i], cfg); break;
+#else
+        case 7: return;             /* the idnkit flavour needs the object's context: covered by kind 3 */
+#endif
         }
         o->a = r->rc; o->b = r->is_ipv4 + 2 * r->is_ipv6 + 4 * r->is_domain; o->c = r->idn_rc;
         eav_result_free(r);
@@ -77,9 +81,11 @@ static void do_call(int kind, int i, int cfg, eav_t *e, out_t *o)
         o->b = dmlen[i] ? is_special_domain(dm[i], dm[i] + dmlen[i]) : -1;
         o->c = dot ? is_tld(dot + 1, dm[i] + dmlen[i]) : is_tld(dm[i], dm[i] + dmlen[i]);
     } else if (kind == 10) {
+#ifndef HAVE_IDNKIT
         int r = 0;
         o->a = is_utf8_domain(&r, dm[i], dm[i] + dmlen[i], cfg);
         o->b = r;
+#endif
     } else if (kind == 11) {
         o->a = is_ipaddr(dm[i], dm[i] + dmlen[i]); o->b = is_ipv4(dm[i], dm[i] + dmlen[i]); o->c = is_ipv6(dm[i], dm[i] + dmlen[i]);
     } else {
